@@ -84,6 +84,8 @@ package proposal
 // how many configuration status writes had been issued when the last proposal status write was issued
 // (orders the two kinds of write within one reconcile step)
 //@ ghost lastPropWriteAtCfgStatusWrites int
+// whether the last proposal status write was accepted by the store
+//@ ghost lastProposalWriteOK bool
 //@ iface Store.UpdateStatus(ctx, proposal) (err)
 //@   requires proposal != nil
 //@   guard {C01,C02,C07} prop.read-before-write: proposal.tracked
@@ -92,8 +94,8 @@ package proposal
 //@   guard {C01,C07} prop.details-immutable: proposal.TransactionIndex == proposal.snapTxIndex && proposal.TargetID == proposal.snapTarget && typeTag(proposal.Details) == proposal.snapDetailsTag
 //@   guard {C06,C07} prop.rollback-values-only-with-validation: (proposal.Status.RollbackIndex != proposal.snapRollbackIndex || proposal.Status.RollbackValues != proposal.snapRollbackValues) ==> proposal.snapValidate == 0 && validateState(proposal) == 1
 //@   guard {C01,C08,C11} prop.failed-has-failure: proposalInv(proposal)
-//@   modifies lastPropWriteAtCfgStatusWrites, propNewValidate, propNewCommit, propNewApply, propNewAbort, proposal.ObjectMeta, proposal.tracked, proposal.snapInit, proposal.snapValidate, proposal.snapCommit, proposal.snapApply, proposal.snapAbort, proposal.snapPrev, proposal.snapNext, proposal.snapTxIndex, proposal.snapTarget, proposal.snapDetailsTag, proposal.snapRollbackIndex, proposal.snapRollbackValues, proposalStatusWrites
-//@   ensures lastPropWriteAtCfgStatusWrites == cfgStatusWrites
+//@   modifies lastPropWriteAtCfgStatusWrites, lastProposalWriteOK, propNewValidate, propNewCommit, propNewApply, propNewAbort, proposal.ObjectMeta, proposal.tracked, proposal.snapInit, proposal.snapValidate, proposal.snapCommit, proposal.snapApply, proposal.snapAbort, proposal.snapPrev, proposal.snapNext, proposal.snapTxIndex, proposal.snapTarget, proposal.snapDetailsTag, proposal.snapRollbackIndex, proposal.snapRollbackValues, proposalStatusWrites
+//@   ensures lastPropWriteAtCfgStatusWrites == cfgStatusWrites && lastProposalWriteOK == (err == nil)
 //@   ensures proposalStatusWrites == old(proposalStatusWrites) + 1
 //@   ensures propNewValidate == old(propNewValidate) + ite(old(proposal.snapValidate) == 0 - 1 && proposal.Status.Phases.Validate != nil, 1, 0)
 //@   ensures propNewCommit == old(propNewCommit) + ite(old(proposal.snapCommit) == 0 - 1 && proposal.Status.Phases.Commit != nil, 1, 0)
